@@ -549,4 +549,171 @@ theorem clamp_range (zero one x : K) (h01 : zero ≤ one) :
     · simp only [c, hm, h2, if_true]; exact ⟨Std.le_refl _, h01⟩
     · simp only [c, hm, h2, if_false]; exact ⟨Std.not_lt.1 h2, Std.not_lt.1 h1⟩
 
+/-! ### due no more than one period ahead
+
+`ub t` stands for "one period after `t`" (rounded as the code rounds).  The two facts assumed of the arithmetic are that a
+computed firing time never exceeds it and that it is monotone; they hold for `round(t + φ'·period, 5)` with `φ' ∈ [0,1]` and
+are exercised, not proved, for doubles. -/
+
+/-- nothing is pending in the past, and every node's firing is due no later than one period after the current time -/
+structure Sched (ub : K → K) (s : St K (U K) Node) : Prop where
+  nopast : ∀ id x, Pending s.q id x → s.q.now ≤ x
+  within : ∀ n x, Due s n x → x ≤ ub s.q.now
+
+theorem cascadeTime_le (O : Ops K) (ub : K → K) (hub : ∀ t phi, O.fireAt t phi ≤ ub t) (t ft : K) (h : ft ≤ ub t) :
+    cascadeTime O t ft ≤ ub t := by
+  unfold cascadeTime; simp only []
+  split
+  · exact h
+  · split <;> exact hub _ _
+
+theorem setFT_sched (ub : K → K) {ex : List Node} (s : St K (U K) Node) (n : Node) (et : K) (h : One ex s) (hn : n ∈ s.u.nodes)
+    (hp : ¬ et < s.q.now) (hle : et ≤ ub s.q.now) (hs : Sched ub s) : Sched ub (setFTState s n et) := by
+  obtain ⟨u1, u2, _⟩ := unpostOld_spec s n h
+  obtain ⟨f1, f2⟩ := unpostOld_fields s n
+  have hp1 : ¬ et < (unpostOld s n).now := by rw [f1]; exact hp
+  obtain ⟨_, _, p2⟩ := post_spec (unpostOld s n) et n 0 u1 hp1
+  obtain ⟨_, d1, fr, e1, _⟩ := setFT_one s n et h hn hp
+  refine ⟨?_, ?_⟩
+  · intro id x hpd
+    rw [e1]
+    have : Pending (post (unpostOld s n) et n 0).1 id x := hpd
+    rw [p2] at this
+    rcases this with ⟨_, rfl⟩ | hh
+    · exact Std.not_lt.1 hp
+    · exact hs.nopast id x ((u2 id x).1 hh).1
+  · intro m x hd
+    rw [e1]
+    by_cases hm : m = n
+    · subst hm
+      have o1 := (setFT_one s m et h hn hp).1
+      rw [due_unique o1 hd d1]; exact hle
+    · exact hs.within m x ((fr m hm x).1 hd)
+
+theorem due_node {ex : List Node} {s : St K (U K) Node} (h : One ex s) {a : Node} {x : K} (hd : Due s a x) : a ∈ s.u.nodes := by
+  obtain ⟨id, hl, ⟨y, hy, hlive, hid, _⟩⟩ := hd
+  obtain ⟨p1, _, p3⟩ := h.elem y hy hlive
+  rw [hid] at p3
+  rw [h.inj a y.elem id hl p3]; exact p1
+
+theorem cascade_sched (O : Ops K) (hfw : ∀ t phi, ¬ O.fireAt t phi < t) (ub : K → K) (hub : ∀ t phi, O.fireAt t phi ≤ ub t)
+    (t : K) (m : Node) (k : Prog K (U K) Node) (s : St K (U K) Node) (h : One [] s) (hm : m ∈ s.u.nodes) (hnow : s.q.now = t)
+    (hs : Sched ub s) :
+    ∃ s', exec (cascade O t m k) s = exec k s' ∧ One [] s' ∧ Sched ub s' ∧ (∀ a, a ≠ m → ∀ x, Due s' a x ↔ Due s a x) ∧ Same s s' := by
+  -- replay the three possible paths of the cascade, carrying the schedule bound along
+  obtain ⟨ft, hd, he⟩ := getFT_exec s m _ h hm (by simp)
+  unfold cascade
+  rw [he]
+  simp only []
+  by_cases hend : O.isEnd (O.state (O.phaseOf t ft)) = true
+  · simp only [hend, if_true]
+    exact ⟨s, rfl, h, hs, fun _ _ _ => Iff.rfl, Same.refl s⟩
+  · simp only [hend, Bool.false_eq_true, if_false]
+    have hp1 : ¬ O.fireAt t (O.bump (O.phaseOf t ft)) < s.q.now := by rw [hnow]; exact hfw _ _
+    obtain ⟨o1, d1, fr1, g1, g2, g3, g4, g5, g6⟩ := setFT_one s m (O.fireAt t (O.bump (O.phaseOf t ft))) h hm hp1
+    have o1' : One [] (setFTState s m (O.fireAt t (O.bump (O.phaseOf t ft)))) := by simpa using o1
+    have sc1 := setFT_sched ub s m _ h hm hp1 (by rw [hnow]; exact hub _ _) hs
+    rw [setFT_exec s m _ _ hp1]
+    generalize setFTState s m (O.fireAt t (O.bump (O.phaseOf t ft))) = s1 at *
+    have sm1 : Same s s1 := ⟨g1, g2, g3, g4, g5, g6⟩
+    obtain ⟨ft1, hd1, he1⟩ := getFT_exec s1 m _ o1' (by rw [g2]; exact hm) (by simp)
+    rw [he1]
+    by_cases hend2 : O.isEnd (O.phaseOf t ft1) = true
+    · simp only [hend2, if_true]
+      have hp2 : ¬ O.fireAt t O.zero < s1.q.now := by rw [g1, hnow]; exact hfw _ _
+      obtain ⟨o2, d2, fr2, k1, k2, k3, k4, k5, k6⟩ := setFT_one s1 m (O.fireAt t O.zero) o1' (by rw [g2]; exact hm) hp2
+      have sc2 := setFT_sched ub s1 m _ o1' (by rw [g2]; exact hm) hp2 (by rw [g1, hnow]; exact hub _ _) sc1
+      rw [setFT_exec s1 m _ _ hp2]
+      exact ⟨_, rfl, by simpa using o2, sc2, fun a ha x => (fr2 a ha x).trans (fr1 a ha x), sm1.trans ⟨k1, k2, k3, k4, k5, k6⟩⟩
+    · simp only [hend2, Bool.false_eq_true, if_false]
+      exact ⟨s1, rfl, o1', sc1, fr1, sm1⟩
+
+theorem cascades_sched (O : Ops K) (hfw : ∀ t phi, ¬ O.fireAt t phi < t) (ub : K → K) (hub : ∀ t phi, O.fireAt t phi ≤ ub t)
+    (t : K) (n : Node) : ∀ (ms : List Node) (s : St K (U K) Node),
+    One [] s → (∀ m ∈ ms, m ∈ s.u.nodes) → s.q.now = t → Sched ub s → Sched ub (exec (cascades O t n ms) s) := by
+  intro ms
+  induction ms with
+  | nil => intro s _ _ _ hs; exact hs
+  | cons m ms ih =>
+    intro s h hall hnow hs
+    unfold cascades
+    by_cases hmn : m = n
+    · simp only [hmn, if_true]
+      exact ih s h (fun x hx => hall x (List.mem_cons_of_mem _ hx)) hnow hs
+    · simp only [hmn, if_false]
+      obtain ⟨s1, e1, o1, sc1, _, sm1⟩ := cascade_sched O hfw ub hub t m (cascades O t n ms) s h (hall m List.mem_cons_self) hnow hs
+      rw [e1]
+      exact ih s1 o1 (fun x hx => by rw [sm1.nodes]; exact hall x (List.mem_cons_of_mem _ hx)) (by rw [sm1.now]; exact hnow) sc1
+
+/-- **within one period, at every instant of a batch**: if before a firing is taken off the queue nothing is pending in the
+    past and every node is due within a period, the same holds after the event -/
+theorem firePosted_sched (O : Ops K) (hfw : ∀ t phi, ¬ O.fireAt t phi < t) (ub : K → K) (hub : ∀ t phi, O.fireAt t phi ≤ ub t)
+    (hmono : ∀ a b : K, a ≤ b → ub a ≤ ub b) (maxT bound : K) (tap : Dyn.Fired K Node Unit → St K (U K) Node → U K)
+    (htap : TapOK tap) (s s' : St K (U K) Node) (ev : Dyn.Fired K Node Unit) (h : One [] s) (hc : Closed s.u) (hs : Sched ub s)
+    (hf : Dyn.firePosted (mkProc O maxT tap) bound s = some (s', ev)) : Sched ub s' := by
+  unfold Dyn.firePosted at hf
+  split at hf
+  · simp at hf
+  · rename_i q1 x hp
+    simp only [Option.some.injEq, Prod.mk.injEq] at hf
+    obtain ⟨o1, xn, hnow⟩ := after_pop s bound q1 x h hp
+    obtain ⟨hxp, _, _, _, hmin, hrest⟩ := pop_spec s.q q1 bound x h.fq hp
+    have hfwd : s.q.now ≤ x.time := hs.nopast _ _ hxp
+    -- the state just after the pop
+    have sc0 : Sched ub ({ s with q := q1 } : St K (U K) Node) := by
+      refine ⟨?_, ?_⟩
+      · intro id y hpd
+        show q1.now ≤ y; rw [hnow]
+        obtain ⟨hne, hpd0⟩ := (hrest id y).1 hpd
+        rcases hmin id y hpd0 with he | hk
+        · exact absurd he hne
+        · rcases hk with h1 | ⟨h1, _⟩
+          · exact Std.le_of_lt h1
+          · exact Std.not_lt.1 h1
+      · intro m y ⟨id, hl, hpd⟩
+        show y ≤ ub q1.now; rw [hnow]
+        exact Std.le_trans (hs.within m y ⟨id, hl, ((hrest id y).1 hpd).2⟩) (hmono _ _ hfwd)
+    -- fired = re-schedule n, log, cascades
+    have hp0 : ¬ O.fireAt x.time O.zero < q1.now := by rw [hnow]; exact hfw _ _
+    obtain ⟨oa, _, _, g1, g2, g3, g4, g5, g6⟩ := setFT_one { s with q := q1 } x.elem (O.fireAt x.time O.zero) o1 xn hp0
+    have sca := setFT_sched ub { s with q := q1 } x.elem _ o1 xn hp0 (by show _ ≤ ub q1.now; rw [hnow]; exact hub _ _) sc0
+    have oa' : One [] (setFTState { s with q := q1 } x.elem (O.fireAt x.time O.zero)) := by simpa using oa
+    have key : Sched ub (exec (fired O x.time x.elem) { s with q := q1 }) := by
+      unfold fired
+      rw [setFT_exec _ _ _ _ hp0]
+      generalize setFTState ({ s with q := q1 } : St K (U K) Node) x.elem (O.fireAt x.time O.zero) = s1 at *
+      unfold firedTail
+      simp only [exec]
+      have failc : ∀ msg : String, Sched ub (exec (fail msg : Prog K (U K) Node) s1) := by
+        intro msg; rw [fail_exec]
+        exact ⟨sca.nopast, fun m y ⟨id, a, b⟩ => sca.within m y ⟨id, a, b⟩⟩
+      cases hperm : s1.u.perms with
+      | nil => exact failc _
+      | cons order rest =>
+        simp only []
+        by_cases hok : order.isPerm ((s1.u.adj x.elem).eraseDups.filter (· != x.elem)) = true
+        · simp only [hok, Bool.not_true, Bool.false_eq_true, if_false, exec]
+          have hmem : ∀ m ∈ order, m ∈ s.u.nodes := by
+            intro m hm
+            have := (List.isPerm_iff.1 hok).mem_iff.1 hm
+            rw [g3] at this
+            exact hc x.elem xn m (List.mem_eraseDups.1 (List.mem_filter.1 this).1)
+          generalize hs2 : ({ s1 with u := logged s1.u x.time x.elem rest } : St K (U K) Node) = s2
+          have q2 : s2.q = s1.q := by rw [← hs2]
+          have n2 : s2.u.nodes = s1.u.nodes := by rw [← hs2]; rfl
+          have v2 : s2.u.evid = s1.u.evid := by rw [← hs2]; rfl
+          have o2 : One [] s2 := oa'.congr q2 n2 v2
+          have sc2 : Sched ub s2 := ⟨by rw [q2]; exact sca.nopast, fun m y ⟨id, a, b⟩ => by
+            rw [q2]; exact sca.within m y ⟨id, by rw [← v2]; exact a, by rw [← q2]; exact b⟩⟩
+          exact cascades_sched O hfw ub hub x.time x.elem order s2 o2 (fun m hm => by rw [n2, g2]; exact hmem m hm)
+            (by rw [q2, g1]; exact hnow) sc2
+        · have : (!order.isPerm ((s1.u.adj x.elem).eraseDups.filter (· != x.elem))) = true := by simpa using hok
+          simp only [this, if_true]
+          exact failc _
+    obtain ⟨_, t2, _⟩ := htap ⟨true, x.time, x.time, q1.now, x.time, x.hid, x.elem, none, true, x.id⟩
+      (exec (fired O x.time x.elem) { s with q := q1 })
+    rw [← hf.1]
+    simp only [mkProc]
+    exact ⟨key.nopast, fun m y ⟨id, a, b⟩ => key.within m y ⟨id, by rw [← t2]; exact a, b⟩⟩
+
 end C20
